@@ -32,6 +32,18 @@ class Report:
         self.deferred = []
 
     # -- recording ------------------------------------------------------------------------
+    def run(self, fn, *args, **kw):
+        """run one rule; an analysis error inside it is recorded (the run ends as ANALYSIS-ERROR unless a violation is
+        found) and the remaining rules still run"""
+        from .model import AnalysisError
+        try:
+            return fn(*args, **kw)
+        except AnalysisError as e:
+            msg = str(e)
+            if msg not in self.deferred:
+                self.deferred.append(msg)
+            return None
+
     def rule(self, rid, text):
         self.rules[rid] = text
 
